@@ -1155,6 +1155,30 @@ class Symx:
                 self.sym_or_name(s['inc'], p)
         return entry, cond, live, done, n0
 
+    def states_at(self, fn, target):
+        """All path states with which control reaches statement `target` (which is not executed)."""
+        saved = self.exec
+        got = []
+
+        def ex(s, sts):
+            if s is target:
+                got.extend(sts)
+                return [], []
+            return saved(s, sts)
+        self.exec = ex
+        try:
+            st = State({})
+            for i in fn.inits:
+                if i.get('field') and i.get('init') is not None:
+                    try:
+                        st.env['this.' + i['field']] = self.rvalue(i['init'], st)
+                    except Undecided:
+                        pass
+            saved(fn.body, [st])
+        finally:
+            self.exec = saved
+        return got
+
     def exec_loop_body(self, body, states):
         """Like exec, but `break`/`continue` end the iteration (recorded as outcomes 'break'/'continue')."""
         saved = self.exec
